@@ -88,6 +88,9 @@ STATEMENT_STATUS: Dict[str, str] = {
     "eofb_ends_decoding": "proved (round 6): rows + EOFB + ANY bits decode to the rows (EndOfBlock / Rows never read)",
     "image_rt_trailing": "proved (round 6): bytes appended to an encoding with EOFB are ignored",
     "extension_codes_rejected": "proved (round 6): after any rows an extension code x1..x7 raises InvalidData",
+    "unassigned_code_rejected": "proved (round 6): in every parser state, bits leading to an unassigned slot of the "
+                                "current code table raise InvalidData",
+    "eol_rejected": "proved (round 6): a single EOL code after any rows (EndOfLine-style data) raises InvalidData",
     "k_not_group4_rejected": "proved (round 6): K = 0, K > 0, K < -1, absent or non-numeric K -> PDFValueError "
                              "whatever the data and the other entries",
 }
@@ -994,7 +997,7 @@ def run_round6(ctx: C.Ctx, b: Batch) -> None:
         b.add_raw("ext %d" % n, {"ext": n}, ext[n] or "-")
     # --- images followed by EOFB + anything / by an extension code; K values
     widths = [1, 2, 3, 5, 7, 8, 9, 16, 17, 33, 64, 65, 200, 1728, 2561, 2700]
-    for i in range(ctx.n(700, 8000)):
+    for i in range(ctx.n(900, 9000)):
         w = rng.choice(widths[:10]) if rng.random() < 0.85 else rng.choice(widths)
         rows = []
         for _ in range(rng.randint(0, 3)):
@@ -1013,8 +1016,20 @@ def run_round6(ctx: C.Ctx, b: Batch) -> None:
             bits += code
             ref = r
         extra = {"w": w, "rows_str": rows_str(rows), "choices": ",".join(chs)}
-        k = i % 4
-        if k == 0:      # complete encoding with EOFB + trailing bytes (image_rt_trailing)
+        k = i % 6
+        if k == 4:      # one EOL code that is not followed by a second one (eol_rejected)
+            dev = rng.randrange(12)
+            devbits = "0" * dev + "1" if dev < 11 else "0" * 12
+            tail = "".join(rng.choice("01") for _ in range(rng.randint(0, 24)))
+            b.add_expect(bits_to_bytes(bits + "000000000001" + devbits + tail), -1, w, align, rev, "EXC:InvalidData",
+                         "a lone EOL code after valid rows was not rejected with InvalidData", "eol", "func",
+                         dict(extra, deviation=dev))
+        elif k == 5:    # H followed by the unassigned white code 00000000 (unassigned_code_rejected)
+            tail = "".join(rng.choice("01") for _ in range(rng.randint(0, 24)))
+            b.add_expect(bits_to_bytes(bits + T6_MODE["h"] + "00000000" + tail), -1, w, align, rev, "EXC:InvalidData",
+                         "an unassigned run-length code was not rejected with InvalidData", "unassigned-run", "func",
+                         extra)
+        elif k == 0:    # complete encoding with EOFB + trailing bytes (image_rt_trailing)
             enc, _ = encode_image(rows, w, chs, align, True)
             trail = bytes(rng.getrandbits(8) for _ in range(rng.randint(1, 6)))
             if rng.random() < 0.3:      # a second image after the first one's EOFB
